@@ -92,8 +92,11 @@ LeftOp(t, p, c, st) ==
   ELSE IF st.sp THEN BAD ELSE Paren(U(t, 0, st))
 
 NumTok(n) == <<"number", n>>
+(* a number token beyond TLC's integers: <<"number", 0, <<"huge", sign, k>>>> *)
+HugeTok(p) == <<"number", 0, p>>
+ParamTok(p) == IF IsHuge(p) THEN HugeTok(p) ELSE NumTok(p[2])
 SliceToks(parts) ==
-  LET n(i) == IF HasP(parts[i]) THEN <<NumTok(parts[i][2])>> ELSE <<>> IN
+  LET n(i) == IF HasP(parts[i]) THEN <<ParamTok(parts[i])>> ELSE <<>> IN
   n(1) \o <<T("colon")>> \o n(2) \o (IF HasP(parts[3]) THEN <<T("colon")>> \o n(3) ELSE <<>>)
 
 (* leftmost leaf of a chain of led nodes *)
@@ -144,7 +147,8 @@ U(t, c, st) ==
     [] k = "Subexpression" -> Cat3(LeftOp(t[2], 40, c, st), <<T("dot")>>, DotRhs(t[3], 40, st))
     [] k = "IndexExpression" ->
          IF t[3][1] # "Index" THEN BAD
-         ELSE Cat(IF t[2] = Identity THEN <<>> ELSE LeftOp(t[2], 55, c, st), <<T("lbracket"), NumTok(t[3][2]), T("rbracket")>>)
+         ELSE Cat(IF t[2] = Identity THEN <<>> ELSE LeftOp(t[2], 55, c, st),
+                  <<T("lbracket"), (IF Len(t[3]) = 3 THEN HugeTok(t[3][3]) ELSE NumTok(t[3][2])), T("rbracket")>>)
     [] k = "FunctionExpression" -> IF ~IsIdent(t[2]) THEN BAD ELSE Cat3(<<<<"uid", t[2]>>, T("lparen")>>, Args(t[3], st), <<T("rparen")>>)
     [] k = "MultiSelectList" -> IF t[2] = <<>> THEN BAD ELSE Cat3(<<T("lbracket")>>, Args(t[2], st), <<T("rbracket")>>)
     [] k = "MultiSelectHash" -> IF t[2] = <<>> THEN BAD ELSE Cat3(<<T("lbrace")>>, KVs(t[2], st), <<T("rbrace")>>)
@@ -187,7 +191,7 @@ Punct(ty) == CASE ty = "star" -> <<42>> [] ty = "dot" -> <<46>> [] ty = "filter"
                [] ty = "unknown" -> <<61>>
 TokText(tk) == CASE tk[1] = "uid" -> tk[2]
                  [] tk[1] = "qid" -> QuoteId(tk[2])
-                 [] tk[1] = "number" -> IntCps(tk[2])
+                 [] tk[1] = "number" -> IF Len(tk) = 3 THEN (IF tk[3][2] < 0 THEN <<45>> ELSE <<>>) \o HugeTable[tk[3][3]] ELSE IntCps(tk[2])
                  [] tk[1] = "jsonlit" -> LitText(tk[2])
                  [] tk[1] = "strlit" -> RawText(tk[2])
                  [] OTHER -> Punct(tk[1])
